@@ -260,6 +260,13 @@ func det01Replay(args []string) int {
 			ra[h] = true
 		}
 	}
+	if *restarts == "all" {
+		// stop and reopen after every block: nothing may live in memory only
+		for i := range hist.Blocks {
+			ra[uint64(i)+2] = true // hist.Blocks[0] is block 2
+		}
+		ra[1] = true
+	}
 	f, _ := os.Create(*out)
 	w := bufio.NewWriter(f)
 	for k := 0; k < *repeats; k++ {
@@ -397,6 +404,7 @@ func det01Workload(args []string) int {
 				{name: "plain-process"},
 				{name: "perturbed-schedule", env: []string{hooks, fmt.Sprintf("VERIF_HOOK_SEED=%d", rng.Int63()), "GOMAXPROCS=2"}},
 				{name: "restarts-in-process@" + rs, args: []string{"-restarts", rs}},
+				{name: "restart-after-every-block", args: []string{"-restarts", "all"}},
 				{name: fmt.Sprintf("restart-new-process@1,%d,%d", split1, split2), procs: [][2]uint64{{1, 1}, {2, split1}, {split1 + 1, split2}, {split2 + 1, 0}}},
 				{name: fmt.Sprintf("repeat-x%d", nrep), repeats: nrep},
 			}
